@@ -202,6 +202,17 @@ def depth3(rng, limit=None, plug_subset=None):
         yield f"{p}@{s2}@{s1}", S[s1](S[s2](P[p]()))
 
 
+def equal_literals():
+    """constants that are equal (and hash equal) but are different literals: True / 1 / 1.0, False / 0 / 0.0 / 0j -
+    in one process, in this order (a spelling remembered by value would leak from one to the next)"""
+    seq = [("True", C(True)), ("1.0", A.BinOp(left=N("t"), op=A.Mult(), right=C(1.0))), ("1", C(1)), ("1.0-alone", C(1.0)),
+           ("False", A.BoolOp(op=A.Or(), values=[C(False), N("z")])), ("0.0", A.BinOp(left=C(0.0), op=A.Add(), right=N("q"))), ("0j", C(0j)), ("0", C(0)),
+           ("mixed", A.Tuple(elts=[C(1.0), C(True), C(1), C(0j), C(0.0), C(False), C(0)], ctx=LD)),
+           ("2.0", C(2.0)), ("2", C(2)), ("2j-real", A.BinOp(left=C(2), op=A.Add(), right=C(0j)))]
+    for name, e in seq:
+        yield "eq-lit:" + name, e
+
+
 # ------------------------------------------------------------------ random deep trees
 IDENTS = ["a", "b", "c", "x", "y", "f", "g", "_", "self"]
 
@@ -218,8 +229,8 @@ class RandExpr:
         r = self.r
         k = r.randrange(9)
         if k == 0: return C(r.choice([0, 1, 7, 10**20, 255]))
-        if k == 1: return C(r.choice([0.5, 1e-7, 1e300, 3.0, 1e999]))
-        if k == 2: return C(r.choice([1j, 2.5j, 1e999j]))
+        if k == 1: return C(r.choice([0.5, 1e-7, 1e300, 3.0, 1e999, 1.0, 0.0]))
+        if k == 2: return C(r.choice([1j, 2.5j, 1e999j, 0j]))
         if k == 3: return C(r.choice(self.strings))
         if k == 4: return C(r.choice([b"", b"x", b"'\"\\\n\xff"]))
         if k == 5: return C(None)
